@@ -699,10 +699,11 @@ Definition two_cfg := mkcfg [rl 4 0 2 0; rl 5 1 2 0] false.
 Definition two_evs : list ev := [ESet 0 1 5000 1; ESet 1 1 7000 1; EAdv 2000000].
 Definition two_pre : st :=
   let s := run_from true two_cfg (start true two_cfg) two_evs in
-  set_tb (now s) (set_cnt0 (c_boot2 two_cfg) (emit (OReboot (now s)) s)).
+  set_upc 0 (set_tb (now s) (set_cnt0 (c_boot2 two_cfg) (emit (OReboot (now s)) s))).
 Lemma restore_all_witness_thm :
   wf_cfg two_cfg /\ NoDup (map r_gpio (c_relays two_cfg)) /\ NoDup (map r_chan (c_relays two_cfg)) /\
   (length (c_relays two_cfg) <= 8)%nat /\ TrO two_pre /\ 0 <= cnt0 two_pre /\ tb two_pre <= now two_pre /\
+  0 <= upc two_pre /\ upc two_pre * 4294967296 <= cnt0 two_pre + (now two_pre - tb two_pre) /\
   NW (boot true two_cfg two_pre) /\
   (fl_relay two_pre, fl_t2 two_pre) = ([1; 1; 0; 0; 0; 0; 0; 0], [4042; 6052; 0; 0; 0; 0; 0; 0]) /\
   filter (fun o => match o with GArm t0 _ _ _ => now two_pre <=? t0 | _ => false end) (outs (boot true two_cfg two_pre)) =
@@ -719,10 +720,11 @@ Proof.
     pose proof (Tr_TrO _ (g_tr _ G)) as [TF TU]. unfold two_pre.
     set (s := run_from true two_cfg (start true two_cfg) two_evs) in *.
     constructor.
-    + intros * H. cbn [outs set_tb set_cnt0 emit set_outs] in H. destruct H as [H|H]; [discriminate|].
+    + intros * H. cbn [outs set_upc set_tb set_cnt0 emit set_outs] in H. destruct H as [H|H]; [discriminate|].
       destruct (TF _ _ _ _ _ _ _ H) as (A & B & C & D). split; [auto|]. split; [auto|]. split; [exact C|].
       right. exact D.
     + exact TU.
-  - split; [vm_compute; discriminate|]. split; [vm_compute; discriminate|]. split; [apply nwb_NW; vm_compute; reflexivity|].
+  - split; [vm_compute; discriminate|]. split; [vm_compute; discriminate|]. split; [vm_compute; discriminate|].
+    split; [vm_compute; discriminate|]. split; [apply nwb_NW; vm_compute; reflexivity|].
     split; vm_compute; reflexivity.
 Qed.
